@@ -85,6 +85,14 @@ def directed(rnd, quick):
             fields = [{"name": "a", "content": "hello", "cl": 5 + cl_delta}, {"name": "b", "content": "world"}, {"name": "c", "content": "!"}]
             base = build(fields)
             cases.append(build(fields, segs=[len(base["body"])] if segs_kind == "whole" else [1] * len(base["body"]), cls="part-content-length"))
+    # a truthful per-field Content-Length and every truncation point of that body (whole and byte by byte)
+    fields = [{"name": "a", "content": "hello", "cl": 5}, {"name": "b", "content": "world", "cl": 5}]
+    n = len(build(fields)["body"])
+    for t in (range(0, n) if not quick else sorted(set(rnd.sample(range(0, n), 10)) | {n - 12, n - 10, n - 9, n - 8})):
+        if t < 0:
+            continue
+        cases.append(build(fields, cut=t, segs=[t] if t else [1], cls="truncated-with-part-length"))
+        cases.append(build(fields, cut=t, segs=[1] * max(t, 1), cls="truncated-with-part-length"))
     # no fields at all, preamble, no closing delimiter
     cases.append(build([], cls="empty"))
     cases.append(build([{"name": "a", "content": "x"}], preamble="junk before\r\n", cls="preamble"))
